@@ -260,8 +260,22 @@ class Ser:
         v = Val(ctx, self.prog, self.bounds, respect_constraints=True).val(self.prog.spec)
         ctx.witness = v
         ctx.run_phase()
-        out = self.S(v)
+        try:
+            out = self.S(v)
+        except Exception as e:
+            return Failure("union-serialization-raises", type(e).__name__, witness=v, extra={"exc": type(e).__name__})
         idx = next((i for i, a in enumerate(self.alts) if self.ref.matches(a, v)), None)
+        if self.core.k != "disc" and idx is not None:
+            # alternatives sharing their runtime class (two TypedDicts, two lists): the first
+            # one, in order, whose own method serializes the value (documented fall-through)
+            for i, a in enumerate(self.alts):
+                if self.ref.matches(a, v):
+                    try:
+                        self.alt_ser[i](v)
+                    except Exception:
+                        continue
+                    idx = i
+                    break
         if self.core.k == "disc" and isinstance(v, dict):
             # TypedDict alternatives are told apart by their discriminator field
             alias = self.core.opt("alias")  # key of the TypedDict value (field name)
